@@ -73,6 +73,24 @@ ZeroOperandCases ==
          LET A == IF which = "A" THEN Z(sh[1]) ELSE Iota("f32", sh[1], 1) B == IF which = "B" THEN Z(sh[2]) ELSE Iota("f32", sh[2], 1) s == SemMatMul(A, B) IN
          P([CaseRec("matmul", "MatMul", <<>>, <<A, B>>, s, <<Tag(s), "f32", "zero_operand", "zero_" \o which>>) EXCEPT !.known = KnownMatMul(A, B)])
 
+\* zero-padding law: additional columns of the left operand and rows of the right one that are all zero contribute nothing to any
+\* product. TLC checks on 1 and 2 additional entries that the padded case has the outputs of the case; the harness pads the flagged
+\* cases to an inner extent of 16411 - a size at which a library may switch to another strategy.
+ZeroPad(t, a, x) == Mk(t.dt, [t.shape EXCEPT ![a + 1] = @ + x], LAMBDA idx : IF idx[a + 1] >= t.shape[a + 1] THEN 0 ELSE At(t, idx))
+PadField(aAxis, bAxis) == [ins |-> <<[pos |-> 0, axis |-> aAxis, blocks |-> 1, dim |-> "c"], [pos |-> 1, axis |-> bAxis, blocks |-> 1, dim |-> "c"]>>, outs |-> <<>>, attr |-> ""]
+PadLinearCases ==
+   /\ \A sh \in {<<<<2, 3>>, <<3, 2>>>>, <<<<2, 2, 3>>, <<3, 2>>>>, <<<<2, 3>>, <<2, 3, 2>>>>} :
+         LET A == Iota("f32", sh[1], 1) B == Iota("f32", sh[2], -2) s == SemMatMul(A, B) aAx == Len(sh[1]) - 1 bAx == Len(sh[2]) - 2 IN
+         (s.must = "value" /\ KnownMatMul(A, B) = <<>> /\ \A x \in {1, 2} : SemMatMul(ZeroPad(A, aAx, x), ZeroPad(B, bAx, x)) = s) =>
+            P(CaseRec("pad", "MatMul", <<>>, <<A, B>>, s, <<"value", "f32", "zero_padding_law">>) @@ [pad |-> PadField(aAx, bAx)])
+   /\ \A tA \in BOOLEAN, tB \in BOOLEAN, withC \in BOOLEAN :
+         LET A == Iota("f32", IF tA THEN <<3, 2>> ELSE <<2, 3>>, 1) B == Iota("f32", IF tB THEN <<2, 3>> ELSE <<3, 2>>, -2)
+             C == IF withC THEN Iota("f32", <<2>>, 10) ELSE Nil
+             attrs == <<AF("alpha", Fin(2)), AF("beta", Rat(1, 2)), AI("transA", IF tA THEN 1 ELSE 0), AI("transB", IF tB THEN 1 ELSE 0)>>
+             s == SemGemm(A, B, C, attrs) aAx == IF tA THEN 0 ELSE 1 bAx == IF tB THEN 1 ELSE 0 IN
+         (s.must = "value" /\ \A x \in {1, 2} : SemGemm(ZeroPad(A, aAx, x), ZeroPad(B, bAx, x), C, attrs) = s) =>
+            P(CaseRec("pad", "Gemm", attrs, IF withC THEN <<A, B, C>> ELSE <<A, B>>, s, <<"value", "f32", "zero_padding_law">>) @@ [pad |-> PadField(aAx, bAx)])
+
 \* long operands: a long outer product, a long row of dot products (each of 2 terms), Gemm with a long bias row
 LongLinearCases ==
    LET n == 20001 col == T("f32", <<n, 1>>, [k \in 1..n |-> (k % 13) - 6]) row == T("f32", <<1, 2>>, <<3, -2>>)
@@ -159,7 +177,7 @@ Emit ==
                     /\ \A dt \in {"f64", "i32", "i64", "u32", "u64"}, ck \in {"absent", "N", "MN"} :
                           P(GemmCase(st.tA, st.tB, <<Fin(2), Fin(-1)>>, ck, 2, 3, 2, dt, FALSE)) /\ P(GemmCase(st.tA, st.tB, <<Fin(1), Fin(1)>>, ck, 2, 3, 2, dt, TRUE))
                     /\ P(GemmBadInner("f32")))
-              /\ (st.M = 1 /\ st.K = 1 /\ st.N = 1 /\ ~st.tA /\ ~st.tB => GemmMagCases /\ LongLinearCases /\ TileLinearCases /\ WrapCases /\ ZeroOperandCases)
+              /\ (st.M = 1 /\ st.K = 1 /\ st.N = 1 /\ ~st.tA /\ ~st.tB => GemmMagCases /\ LongLinearCases /\ TileLinearCases /\ WrapCases /\ ZeroOperandCases /\ PadLinearCases)
         [] st.fam = "linreg" ->
               /\ \A ik \in {"absent", "one", "targets", "bad"} : P(LRCase(st.N, st.F, st.Tg, ik, "f32"))
               /\ (st.N = 2 /\ st.F = 2 => \A dt \in {"f64", "i32", "i64"} : P(LRCase(2, 2, st.Tg, "targets", dt)))
